@@ -381,10 +381,4 @@ def main(tier, seed, scale=1.0):
 
 def replay(path):
     vbuild.build("asan")
-    d = vcommon.load_replay(path)
-    res = Result(PROP)
-    try:
-        check_case(d["case"], {"prop": PROP})
-    except Violation as v:
-        res.violations.append((v.what, path))
-    return res
+    return vcommon.replay_case(PROP, check_case, path)
